@@ -1084,7 +1084,10 @@ class DropnaFrame(Blockwise):
     operation = M.dropna
 
     def _simplify_up(self, parent, dependents):
-        if self.subset is not None:
+        # Only a column selection tells which columns are needed; the columns
+        # of any other consumer (e.g. after set_index, or of a reduction chunk)
+        # are not the columns it reads
+        if self.subset is not None and isinstance(parent, Projection):
             columns = determine_column_projection(
                 self, parent, dependents, additional_columns=self.subset
             )
